@@ -95,18 +95,21 @@ CHECKS.update({
 NOT_YET = {}
 # extensions made after the second round of seeded changes (appended to the level text)
 EXTRA = {
+ "C10": " MC_C10sites: one of 11 macro bodies pasted at 1-3 of 5 sites (275 documents beyond the length bound); model invariant CatalogTransparent (Build(macro form) = Build(in-place form)).",
+ "C09": " Base document d6 (an explicit context of the includer around an implicit URL and a method with its own path); model invariant CatalogSame (catalog of the split tree = catalog of the unsplit tree).",
+ "C02": " The schema skeleton also lists the first-level children of every schema (key, token type, JSight type). Compile-phase path checks are modelled (root-level URL / methods without Path are parsed before the build phase; errors of a Path's parent path stand on Path). The split projects of MC_C09 are replayed as layouts that distribute the text over INCLUDEd files.",
  "C01": " Type graphs: every graph over 2 (quick, 2 025 cases) / 3 (thorough, 140 625) user types with bodies {leaf, reference, or, property, optional property, array item, allOf} crossed with 9 sites using @t1 (Path by reference / by property, Headers, Query, Request, response, JSON-RPC, another TYPE) is built in crash-isolated workers (MC_C01types; model invariant: the walk with a visited set needs <= N unfoldings).",
- "C03": " Undefined tag inserted at every position of every Tags list.",
+ "C03": " Undefined tag inserted at every position of every Tags list. Annotation fault on a Body whose parent is a Request.",
  "C05": " Quick tier: the 2-block generator also places a prelude of dependency blocks (tags, type, enum, macro) before or after the chosen blocks, so blocks with dependencies and declarations after use are reached.",
- "C06": " Histories: every history of <= 2 (quick, 8 190) / 3 (thorough, reduced menus) builds over 5 x 3 file states and lists of option values from a process-wide pool (MC_C06); outcome class predicted by the model, bytes compared with a fresh process using freshly made options.",
- "C07": " Contexts across files: MC_C07 variant 'contexts' (explicit / implicit contexts, methods with own path, ')' on both sides of an INCLUDE; 21 931 projects).",
- "C08": " Explicit closure: besides the full closure every single directive made explicit on its own (an explicit context next to implicitly nested siblings).",
- "C11": " The resolver across an INCLUDE: MC_C07 variant 'contexts' (21 931 projects) replayed for verdict, class and place.",
+ "C06": " Histories: every history of <= 2 (quick, 8 190) / 3 (thorough, reduced menus) builds over 5 x 3 file states and lists of option values from a process-wide pool (MC_C06); outcome class predicted by the model, bytes compared with a fresh process using freshly made options. The sweep includes the documents the model rejects (the error must be the same in every rebuild).",
+ "C07": " Contexts across files: MC_C07 variant 'contexts' (explicit / implicit contexts, methods with own path, ')' on both sides of an INCLUDE; 21 931 projects). The replay rotates the line-break convention of all files of a project (LF, CRLF, CR) as well as the spelling of the root path.",
+ "C08": " Explicit closure: besides the full closure every single directive made explicit on its own (an explicit context next to implicitly nested siblings). When the canonical layout already deviates from the model, the other layouts are compared with the canonical layout directly.",
+ "C11": " The resolver across an INCLUDE: MC_C07 variant 'contexts' (21 931 projects) replayed for verdict, class and place. Second resolver: for every document and explicit-mask variant of MC_C08doc without PASTE, the tree after the MACRO/PASTE pass must equal the scanned tree without MACROs.",
  "C12": " Bounds as built: 7 (quick) / 9 (thorough) bytes over the general menu plus a Description-focused configuration (18 / 20 bytes over a 9-chunk menu: text lines, CR / LF / CRLF, '( )', keywords of 3 bytes); corpus files validated by Trace_Scan.",
  "C13": " The Description-focused scanner configuration (keywords that end a Description text) is replayed as well.",
  "C15": " Base set sA: two resources sharing a path parameter described by one Path with an inline 'or' of rule sets.",
- "C17": " Quick tier sweeps the prelude documents of the generator (stand-alone methods with path parameters).",
- "C19": " Project p4: banned directives that carry a fault of their own (second Path parameter) in the root and in an included file; BanRule states that the ban is reported at the keyword unless a fault is met earlier in scan order.",
+ "C17": " Quick tier sweeps the prelude documents of the generator (stand-alone methods with path parameters). OpenAPI.tla specifies the export as a function OAS(C) of the catalog value (servers, path items created by the first interaction of a path, operations with summary / tags by title / parameter names / request body / response keys, components); TLC checks Sound(C) = C17 on every accepted document of the block model (2 273 quick / ~20 000 thorough) and the real ToOpenAPIJson output is projected onto OAS(C): operation presence, path parameters and components are verdicts, the rest is reported as drift (0 on the current tree).",
+ "C19": " Project p4: banned directives that carry a fault of their own (second Path parameter) in the root and in an included file; BanRule states that the ban is reported at the keyword unless a fault is met earlier in scan order. The histories of MC_C06 (option values reused across builds) are replayed for the verdict class.",
 }
 ALL = ["C%02d" % i for i in range(1, 20)]
 
@@ -133,7 +136,7 @@ def main():
     hooks = subprocess.run(["git", "-C", "/repo", "log", "--format=%H %s"], capture_output=True, text=True).stdout.splitlines()
     m = {
         "version": 1,
-        "setup_cmd": "cd /verif/harness && cp /repo/go.sum . && %s go build -tags verif -o /dev/null ./cmd/vh && for m in MC_C01types MC_C06 MC_C02 MC_C03 MC_C04 MC_C07 MC_C08 MC_C08doc MC_C09 MC_C10 MC_C10cyc MC_C11 MC_C12 MC_C13 MC_C14 MC_C15 MC_C16 MC_C17 MC_C19 MC_Desc Conc Trace_C05 Trace_C11 Trace_C18 Trace_Scan; do (cd /verif/spec && tla-sany $m.tla >/dev/null) || exit 1; done" % GO,
+        "setup_cmd": "cd /verif/harness && cp /repo/go.sum . && %s go build -tags verif -o /dev/null ./cmd/vh && for m in MC_C01types MC_C06 MC_C10sites MC_C17docs MC_C02 MC_C03 MC_C04 MC_C07 MC_C08 MC_C08doc MC_C09 MC_C10 MC_C10cyc MC_C11 MC_C12 MC_C13 MC_C14 MC_C15 MC_C16 MC_C17 MC_C19 MC_Desc Conc Trace_C05 Trace_C11 Trace_C18 Trace_Scan; do (cd /verif/spec && tla-sany $m.tla >/dev/null) || exit 1; done" % GO,
         "hooks": {
             "guard": "verif",
             "enable": "go build -tags verif (the harness module /verif/harness replaces github.com/jsightapi/jsight-api-core with /repo)",
